@@ -179,7 +179,7 @@ def reach(master):
     """quick batches of the scheduling / fault checks must hit their rare-condition probes"""
     bad = 0
     for pid, probes in (("C19", ["lock_contention", "overlapping_loads"]),
-                        ("C09", ["torn_index_seen_by_reader", "hole_state_seen"]),
+                        ("C09", ["torn_index_seen_by_reader"]),
                         ("C07", ["cached_open_without_image_reads", "adjacent_cache_used"])):
         env = dict(os.environ, VERIF_EVIDENCE_DIR="/dev/shm/cav-selftest-evidence",
                    VERIF_REPLAY_DIR="/dev/shm/cav-selftest-replays")
